@@ -14,11 +14,18 @@ code->spec : every real execution (replayed behaviours, directed schedules, seed
              schedule perturbation, with and without runtime/trace started) is recorded as ndjson and
              validated by TLC against the total contract monitor SpanEndContract.tla (Trace_SpanEnd.tla).
 thorough   : additionally the same scenarios under -race (auxiliary monitor for the data-race clause).
+impl-trace : Trace_SpanEndImpl.tla: a sample of the same recorded executions (replayed behaviours, directed
+             schedules, the first random scenarios) must also be explainable by the ACTIONS of SpanEnd.tla itself:
+             one line per verif point of End passed (confirmation lines), per natural gate passed (user code the
+             SDK calls: exact lines) and per Call/Ret/OnEnd; TLC infers the unlogged lock/check/apply/snapshot
+             steps, every invariant of SpanEnd.tla stays on.  A trace the contract accepts but SpanEnd.tla cannot
+             explain is MODEL DRIFT: counted, reported (evidence + NOTE), never a verdict.
 """
 import glob
 import json
 import os
 import re
+from concurrent.futures import ThreadPoolExecutor
 
 S = "SpanEnd"
 WINDOW = ["span.end.checked", "span.end.taskended", "span.end.marked"]
@@ -171,6 +178,148 @@ def directed(shape):
     out += [dict(d, name=d["name"] + "-recordonly", recordOnly=True) for d in out
             if d["name"].startswith(("held-after-mark", "mutators-before-end", "mutate-inside", "panic-format-while"))]
     return out
+
+
+ILISTS = ["enders", "panickers", "mutators", "shared", "usermut", "evmut", "zeromut", "children", "readers", "registrars",
+          "stoppers", "unregs", "waitfor"]
+
+
+def impl_validate(ctx, traces, consts, max_scen, max_groups, per_group, max_lines, timeout):
+    """Trace_SpanEndImpl.tla over a sample of the scenarios recorded with -impl.  Scenarios are grouped by the scalar
+    constants of SpanEnd.tla (one TLC start per group, reset between scenarios); the process names of a group are merged
+    into its first Cfg line.  Returns statistics; drift is evidence, never a verdict."""
+    scen, cfgs, icfgs, order = {}, {}, {}, []
+    for tf, label in traces:
+        cur = None
+        for ln in open(tf):
+            if '"impl":true' in ln and '"ev":"Cfg"' in ln:
+                r = json.loads(ln)
+                cur = (label, r["sc"])
+                scen[cur], cfgs[cur] = [], r
+                order.append(cur)
+            elif '"ev":"Cfg"' in ln:
+                cur = None
+            if cur is not None:
+                r = json.loads(ln)
+                if r["sc"] == cur[1]:      # (stragglers of an abandoned scenario carry another number)
+                    scen[cur].append((ln, r))
+                    if r["ev"] == "ICfg":
+                        icfgs[cur] = r
+    elig, why = [], {}
+    for k in order:
+        c, ic, last = cfgs[k], icfgs.get(k), scen[k][-1][1]
+        reason = None
+        if ic is None or last["ev"] != "EndScenario" or not last.get("quiescent"):
+            reason = "not-quiescent"
+        elif any(r["ev"] in ("Stuck", "Panic") for _, r in scen[k]):
+            reason = "stuck-or-panic"
+        elif ic["provs"] > 0:
+            reason = "provider-user-goroutine"      # Tracer/Register/Unregister of a foreign processor/ForceFlush: not in SpanEnd.tla
+        elif ic["unregs"] and c["nprocs"] == 0:
+            reason = "unregister-without-processor"
+        elif len(scen[k]) > max_lines:
+            reason = "too-long"
+        if reason:
+            why[reason] = why.get(reason, 0) + 1
+        else:
+            elig.append(k)
+    groups = {}
+    for k in elig:
+        c = cfgs[k]
+        key = (c["rt"], c["nprocs"], c["lim"], c["sampled"], c["zero"], c["withstart"], c["reentreg"], c["hooks"])
+        groups.setdefault(key, []).append(k)
+    # sample: groups in order of first appearance (scripts first: behaviours, directed schedules; then random), round-robin
+    # over the sources inside a group, directed schedules first
+    def directed_first(k):
+        nm = cfgs[k].get("name", "")
+        return (0 if k[0] == "scripts" and not re.match(r"(all|sim|uall|usim|udev|ro|prov|st|z0)-", nm) else 1, order.index(k))
+    chosen = []
+    gkeys = sorted(groups, key=lambda g: (-len({cfgs[k].get("name", "").split("-e")[0] for k in groups[g]}), order.index(groups[g][0])))
+    for g in gkeys[:max_groups]:
+        ks = sorted(groups[g], key=directed_first)[:per_group]
+        chosen.append((g, sorted(ks, key=order.index)))
+    total = sum(len(ks) for _, ks in chosen)
+    while total > max_scen:          # trim the largest groups first
+        g, ks = max(chosen, key=lambda x: len(x[1]))
+        ks.pop()
+        total -= 1
+    stats = {"recorded": len(order), "eligible": len(elig), "ineligible": why, "groups_available": len(groups),
+             "groups": len(chosen), "scenarios": total, "accepted": 0, "lines": 0, "states": 0, "tlc_starts": 0, "wall_s": 0.0,
+             "drift": [], "errors": [], "model_monitor_bad": []}
+
+    def one(gi, key, ks):
+        out = {"accepted": [], "drift": [], "errors": [], "lines": 0, "states": 0, "starts": 0, "bad": []}
+        rest = list(ks)
+        while rest:
+            u = {x: [] for x in ILISTS}
+            for k in rest:
+                for x in ILISTS:
+                    u[x] += [v for v in icfgs[k][x] if v not in u[x]]
+            u["registrars"].sort(key=lambda g: int(g[1:]))
+            f = os.path.join(ctx.work, "impl-%d.ndjson" % gi)
+            spans, n = [], 0
+            with open(f, "w") as w:
+                for k in rest:
+                    for i, (ln, r) in enumerate(scen[k]):
+                        if n == 0 and i == 0:
+                            ln = json.dumps(dict(r, **u)) + "\n"
+                        w.write(ln)
+                    spans.append((k, n + 1, n + len(scen[k])))
+                    n += len(scen[k])
+            r = ctx.tlc(S, "Trace_SpanEndImpl", "Trace_SpanEndImpl.cfg", workers=1, deque=True, timeout=timeout, heap="2g",
+                        defines=consts, extra_files={"trace.ndjson": f}, name="impl-%d" % gi, must_pass=False, count=False)
+            out["starts"] += 1
+            out["states"] += r["distinct"]
+            acc = hwm = None
+            for pr in r["prints"]:
+                if isinstance(pr, str) and pr.startswith("ACCEPTED "):
+                    acc = int(pr.split()[1])
+                elif isinstance(pr, str) and pr.startswith("HWM "):
+                    hwm = int(pr.split()[1])
+                elif isinstance(pr, str) and pr.startswith("IMPLEND "):
+                    d = json.loads(pr[8:])
+                    if d["bad"]:
+                        out["bad"].append({"scenario": d["sc"], "bad": sorted(d["bad"])})
+            if acc == n:
+                out["accepted"] += [k for k, _, _ in spans]
+                out["lines"] += n
+                break
+            if r["timed_out"] or r["error"] or r["violated"] or hwm is None:
+                # an invariant of SpanEnd.tla broken on the way, a TLC error or a timeout: nothing of this file counts
+                out["errors"].append({"group": gi, "scenarios": len(rest), "first": "%s/%s" % rest[0],
+                                      "error": ("invariant " + r["violated"]) if r["violated"] else (r["error"] or "timeout"), "out": r["out"]})
+                break
+            # stuck: the scenario holding line `hwm` is the first one no explanation gets through
+            j = next((i for i, (_, a, b) in enumerate(spans) if a <= hwm <= b), len(spans) - 1)
+            k, a, b = spans[j]
+            out["accepted"] += [x for x, _, _ in spans[:j]]
+            out["lines"] += a - 1
+            ev = scen[k][min(hwm - a, len(scen[k]) - 1)][1]
+            out["drift"].append({"scenario": "%s/%d" % k, "name": cfgs[k].get("name", ""), "line_in_scenario": hwm - a + 1,
+                                 "first_offending_line": ev,
+                                 "before": [x[1] for x in scen[k][max(0, hwm - a - 3):hwm - a]],
+                                 "cfg": {x: cfgs[k][x] for x in ("rt", "nprocs", "lim", "sampled", "zero", "withstart")}})
+            rest = [x for x, _, _ in spans[j + 1:]]
+        return out
+
+    import time
+    t0 = time.time()
+    with ThreadPoolExecutor(max_workers=4) as ex:
+        outs = list(ex.map(lambda a: one(a[0], a[1][0], a[1][1]), list(enumerate(chosen))))
+    stats["wall_s"] = round(time.time() - t0, 1)
+    for o in outs:
+        stats["accepted"] += len(o["accepted"])
+        stats["lines"] += o["lines"]
+        stats["states"] += o["states"]
+        stats["tlc_starts"] += o["starts"]
+        stats["drift"] += o["drift"]
+        stats["errors"] += o["errors"]
+        stats["model_monitor_bad"] += o["bad"]
+    stats["drift_count"] = len(stats["drift"])
+    stats["drift"] = stats["drift"][:5]
+    stats["errors"] = stats["errors"][:3]
+    stats["model_monitor_bad"] = stats["model_monitor_bad"][:5]
+    return stats
 
 
 def run(ctx):
